@@ -244,4 +244,231 @@ example : exLayout.ok := by
   · exact ⟨by simp, by decide⟩
 example : render exLayout ⟨2024, 2, 29, "ACME", .split ⟨['2'], []⟩⟩ = " \t2024-02-29  split\tACME  ratio\t2 # note".toList := by decide
 
+/-! ### several input files read as one (`read_and_concatenate_files`: the texts joined by a line feed) -/
+
+/-- lines that are not empty -/
+def F (ls : List (List Char)) : List (List Char) := ls.filter (fun l => !l.isEmpty)
+
+theorem F_cons_nil (ls : List (List Char)) : F ([] :: ls) = F ls := by simp [F]
+
+theorem F_split (ls : List (List Char)) (h : ls ≠ []) : F ls = F [ls.headD []] ++ F ls.tail := by
+  cases ls with
+  | nil => exact absurd rfl h
+  | cons x xs =>
+    simp only [F, List.headD_cons, List.tail_cons, List.filter_cons]
+    by_cases hx : x.isEmpty <;> simp [hx]
+
+theorem consHead_eq (c : Char) (ls : List (List Char)) (h : ls ≠ []) :
+    consHead c ls = (c :: ls.headD []) :: ls.tail := by
+  cases ls with
+  | nil => exact absurd rfl h
+  | cons x xs => rfl
+
+/-- joining with a line feed: the first line of `a ++ "\n" ++ b` is `a`'s first line, and the later
+    lines are `a`'s later lines followed by `b`'s lines, up to empty lines -/
+theorem join_lines (b : List Char) : ∀ (n : Nat) (a : List Char), a.length ≤ n →
+    (splitLines (a ++ '\n' :: b)).headD [] = (splitLines a).headD [] ∧
+    F (splitLines (a ++ '\n' :: b)).tail = F (splitLines a).tail ++ F (splitLines b) := by
+  intro n
+  induction n with
+  | zero =>
+    intro a ha
+    have : a = [] := List.length_eq_zero_iff.mp (Nat.le_zero.mp ha)
+    subst this
+    simp [splitLines, F]
+  | succ n ih =>
+    intro a ha
+    -- what the induction hypothesis gives for a shorter text: all of its lines
+    have whole : ∀ x : List Char, x.length ≤ n → F (splitLines (x ++ '\n' :: b)) = F (splitLines x) ++ F (splitLines b) := by
+      intro x hx
+      obtain ⟨h1, h2⟩ := ih x hx
+      rw [F_split _ (splitLines_ne_nil _), F_split (splitLines x) (splitLines_ne_nil _), h1, h2, List.append_assoc]
+    cases a with
+    | nil => simp [splitLines, F]
+    | cons c cs =>
+      have hcs : cs.length ≤ n := by simp at ha; omega
+      by_cases h1 : c = '\n'
+      · subst h1
+        simp only [List.cons_append, splitLines, List.headD_cons, List.tail_cons, true_and]
+        exact whole cs hcs
+      · by_cases h2 : c = '\r'
+        · subst h2
+          cases cs with
+          | nil => simp [splitLines, F]
+          | cons d ds =>
+            by_cases h3 : d = '\n'
+            · subst h3
+              have hds : ds.length ≤ n := by simp at hcs; omega
+              simp only [List.cons_append, splitLines, List.headD_cons, List.tail_cons, true_and]
+              exact whole ds hds
+            · have cr : ∀ (d : Char) (rest : List Char), d ≠ '\n' → splitLines ('\r' :: d :: rest) = [] :: splitLines (d :: rest) := by
+                intro d rest hd
+                rw [splitLines.eq_def]
+                split
+                · rename_i h; cases h
+                · rename_i h; simp only [List.cons.injEq, true_and] at h; exact absurd h.1 hd
+                · rename_i h; simp only [List.cons.injEq] at h; exact absurd h.1 (by decide)
+                · rename_i h; simp only [List.cons.injEq, true_and] at h; rw [h]
+                · rename_i _ hx h; simp only [List.cons.injEq] at h; exact absurd h.1.symm hx
+              have e1 := cr d ds h3
+              have e2 : splitLines ('\r' :: (d :: ds ++ '\n' :: b)) = [] :: splitLines (d :: ds ++ '\n' :: b) := by
+                rw [List.cons_append]; exact cr d _ h3
+              rw [List.cons_append, e2, e1]
+              simp only [List.headD_cons, List.tail_cons, true_and]
+              exact whole (d :: ds) hcs
+        · rw [List.cons_append, splitLines_cons c h1 h2, splitLines_cons c h1 h2,
+            consHead_eq c _ (splitLines_ne_nil _), consHead_eq c _ (splitLines_ne_nil _)]
+          obtain ⟨i1, i2⟩ := ih cs hcs
+          simp only [List.headD_cons, List.tail_cons]
+          exact ⟨by rw [i1], i2⟩
+
+theorem join_nonempty_lines (a b : List Char) :
+    F (splitLines (a ++ '\n' :: b)) = F (splitLines a) ++ F (splitLines b) := by
+  obtain ⟨h1, h2⟩ := join_lines b a.length a (Nat.le_refl _)
+  rw [F_split _ (splitLines_ne_nil _), F_split (splitLines a) (splitLines_ne_nil _), h1, h2, List.append_assoc]
+
+
+def hasSyntaxError : List LineResult → Bool
+  | [] => false
+  | .syntaxError :: _ => true
+  | _ :: rest => hasSyntaxError rest
+
+def semOk (valid : List String) (t : DTx) : Bool := (semantic valid 0 t).isNone
+
+theorem semantic_none_iff (valid : List String) (n : Nat) (t : DTx) : semantic valid n t = none ↔ semOk valid t = true := by
+  unfold semOk semantic
+  split <;> (try split) <;> (try split) <;> simp
+
+/-- what a list of line results amounts to, line numbers aside -/
+def verdict (valid : List String) (rs : List LineResult) : Option (List DTx) :=
+  if hasSyntaxError rs then none else if (txsOf rs).all (semOk valid) then some (txsOf rs) else none
+
+def okList (valid : List String) (text : List Char) : Option (List DTx) :=
+  match parse valid text with
+  | .ok ts => some ts
+  | .error _ => none
+
+theorem firstSyntax_none_iff (rs : List LineResult) : ∀ n, (firstSyntax n rs = none ↔ hasSyntaxError rs = false) := by
+  induction rs with
+  | nil => intro n; simp [firstSyntax, hasSyntaxError]
+  | cons r rs ih =>
+    intro n
+    cases r <;> simp [firstSyntax, hasSyntaxError, ih]
+
+theorem collect_verdict (valid : List String) (rs : List LineResult) : ∀ n,
+    (match collect valid n rs with | .ok ts => some ts | .error _ => none)
+      = (if (txsOf rs).all (semOk valid) then some (txsOf rs) else none) := by
+  induction rs with
+  | nil => intro n; simp [collect, txsOf]
+  | cons r rs ih =>
+    intro n
+    cases r with
+    | blank => simp only [collect, txsOf]; exact ih (n + 1)
+    | syntaxError => simp only [collect, txsOf]; exact ih (n + 1)
+    | tx t =>
+      simp only [collect, txsOf, List.all_cons]
+      cases hs : semantic valid n t with
+      | some e =>
+        have : semOk valid t = false := by
+          cases h : semOk valid t with
+          | false => rfl
+          | true => have := (semantic_none_iff valid n t).mpr h; rw [this] at hs; cases hs
+        simp [this]
+      | none =>
+        have hk : semOk valid t = true := (semantic_none_iff valid n t).mp hs
+        simp only [hk, Bool.true_and]
+        have := ih (n + 1)
+        cases hc : collect valid (n + 1) rs with
+        | error e =>
+          rw [hc] at this; simp only at this ⊢
+          by_cases h : (txsOf rs).all (semOk valid) = true
+          · rw [if_pos h] at this; cases this
+          · rw [if_neg h]
+        | ok ts =>
+          rw [hc] at this; simp only at this ⊢
+          by_cases h : (txsOf rs).all (semOk valid) = true
+          · rw [if_pos h] at this ⊢; cases this; rfl
+          · rw [if_neg h] at this; cases this
+
+theorem okList_verdict (valid : List String) (text : List Char) :
+    okList valid text = verdict valid ((splitLines text).map parseLine) := by
+  unfold okList parse verdict
+  simp only
+  cases hf : firstSyntax 1 ((splitLines text).map parseLine) with
+  | some n =>
+    have : hasSyntaxError ((splitLines text).map parseLine) = true := by
+      cases h : hasSyntaxError ((splitLines text).map parseLine) with
+      | true => rfl
+      | false => have := (firstSyntax_none_iff _ 1).mpr h; rw [this] at hf; cases hf
+    simp [this]
+  | none =>
+    have := (firstSyntax_none_iff _ 1).mp hf
+    simp only [this, Bool.false_eq_true, if_false]
+    exact collect_verdict valid _ 1
+
+def nonBlank (rs : List LineResult) : List LineResult := rs.filter (fun r => decide (r ≠ .blank))
+
+theorem verdict_nonBlank (valid : List String) (rs : List LineResult) : verdict valid (nonBlank rs) = verdict valid rs := by
+  have h1 : ∀ rs, hasSyntaxError (nonBlank rs) = hasSyntaxError rs := by
+    intro rs; induction rs with
+    | nil => rfl
+    | cons r rs ih => cases r <;> simp_all [nonBlank, hasSyntaxError, List.filter_cons]
+  have h2 : ∀ rs, txsOf (nonBlank rs) = txsOf rs := by
+    intro rs; induction rs with
+    | nil => rfl
+    | cons r rs ih => cases r <;> simp_all [nonBlank, txsOf, List.filter_cons]
+  unfold verdict; rw [h1, h2]
+
+theorem verdict_append (valid : List String) (x y : List LineResult) :
+    verdict valid (x ++ y) = (match verdict valid x, verdict valid y with
+      | some a, some b => some (a ++ b)
+      | _, _ => none) := by
+  have h1 : ∀ x y, hasSyntaxError (x ++ y) = (hasSyntaxError x || hasSyntaxError y) := by
+    intro x y; induction x with
+    | nil => simp [hasSyntaxError]
+    | cons r rs ih => cases r <;> simp_all [hasSyntaxError]
+  have h2 : ∀ x y, txsOf (x ++ y) = txsOf x ++ txsOf y := by
+    intro x y; induction x with
+    | nil => simp [txsOf]
+    | cons r rs ih => cases r <;> simp_all [txsOf]
+  unfold verdict
+  rw [h1, h2, List.all_append]
+  cases hasSyntaxError x <;> cases hasSyntaxError y <;> cases (txsOf x).all (semOk valid) <;> cases (txsOf y).all (semOk valid) <;> simp
+
+theorem parseLine_nil : parseLine [] = .blank := by simp [parseLine, skipWC, skipWs]
+
+theorem nonBlank_lines (ls : List (List Char)) : nonBlank ((F ls).map parseLine) = nonBlank (ls.map parseLine) := by
+  induction ls with
+  | nil => rfl
+  | cons l ls ih =>
+    cases l with
+    | nil => simp only [F_cons_nil, List.map_cons, parseLine_nil, ih]; simp [nonBlank, List.filter_cons]
+    | cons c cs =>
+      have : F ((c :: cs) :: ls) = (c :: cs) :: F ls := by simp [F, List.filter_cons]
+      rw [this]; simp only [List.map_cons, nonBlank, List.filter_cons] at ih ⊢
+      rw [ih]
+
+/-- **the transactions of several files read as one** (what `cgt-tool parse/report a b …` does: the files'
+    texts joined by a line feed): the joined text parses exactly when each file parses, to the
+    concatenation of their lists — whether or not a file ends in a newline, in a comment, or in CR -/
+theorem parse_joined_files (valid : List String) (a b : List Char) :
+    okList valid (a ++ '\n' :: b) = (match okList valid a, okList valid b with
+      | some x, some y => some (x ++ y)
+      | _, _ => none) := by
+  rw [okList_verdict, okList_verdict, okList_verdict,
+    ← verdict_nonBlank valid (List.map parseLine (splitLines (a ++ '\n' :: b))),
+    ← nonBlank_lines, join_nonempty_lines, List.map_append]
+  have e : nonBlank (List.map parseLine (F (splitLines a)) ++ List.map parseLine (F (splitLines b)))
+      = nonBlank (List.map parseLine (splitLines a)) ++ nonBlank (List.map parseLine (splitLines b)) := by
+    have ha := nonBlank_lines (splitLines a)
+    have hb := nonBlank_lines (splitLines b)
+    unfold nonBlank at ha hb ⊢
+    rw [List.filter_append, ha, hb]
+  rw [e, verdict_append, verdict_nonBlank, verdict_nonBlank]
+
+
+/-- the separator `cgt-tool` puts between input files, as the translator reads it from main.rs on every run
+    (group `cli_join`) -/
+theorem C13_files_joined_by_line_feed : Cgt.cliFileJoin = "\n" := by decide
+
 end Cgt.C13
